@@ -202,7 +202,7 @@ def handleImpl (ds : DState) (op : String) (args impl : List String) : Option (D
     fin { st with linkObs := (key, impl) :: st.linkObs.filter (·.1 != key) } (judge s!"{op}.{if ok then "ok" else "err"}" impl impl rules)
   | "has" | "count" | "list" | "drop" | "idof" | "haslink" | "getlink" =>
     fin st (.ok s!"{op}.{if ok then "ok" else "err"}")
-  | "adim" | "sdim" | "ddims" | "da_setext" | "da_fill" | "pvalues" | "pset" | "mkpv" =>
+  | "adim" | "sdim" | "ddims" | "da_setext" | "da_fill" | "da_fills" | "da_append" | "da_appends" | "pvalues" | "pset" | "mkpv" =>
     fin (note st) (.ok s!"{op}.{(args[1]?).getD ""}.{if ok then "ok" else (impl[1]?).getD "err"}")
   | "dims" | "gdim" | "pget" | "da_read1" => fin st (.ok s!"{op}.{if ok then "ok" else "err"}")
   | "del" =>
@@ -239,7 +239,12 @@ def handleImpl (ds : DState) (op : String) (args impl : List String) : Option (D
     | _ => fin st (.malformed "xlinks")
   | "dump" | "dumpx" =>
     match Dump.parse impl with
-    | none => fin { st with lastDump := none, sinceDump := [] } (.ok "dump.err")
+    | none =>
+      -- C02 / C11: after a session has been closed, another process can open the file and walk it (the generators ask for `dumpx`
+      -- only after `fdrop` on a file of their own making)
+      let st' := { st with lastDump := none, sinceDump := [] }
+      if op == "dumpx" then fin st' (judge "dumpx.err" impl impl [("another_process_can_reopen_the_closed_file", false)])
+      else fin st' (.ok "dump.err")
     | some d =>
       let since := st.sinceDump
       let idRules := relIds d ++ relIdStable st.everSeen d
